@@ -70,7 +70,11 @@ def variant_agreement(prog, res):
     R = "T9.variant-agreement"
     pairs = (("HUF_decompress4X1_usingDTable_internal_body", "HUF_decompress4X2_usingDTable_internal_body"),
              ("HUF_decompress1X1_usingDTable_internal_body", "HUF_decompress1X2_usingDTable_internal_body"))
+    npairs = 0
     for a, b in pairs:
+        if prog.has_fn(a) != prog.has_fn(b):
+            continue        # a build that forces one Huffman decoder variant compiles only that one: nothing to compare
+        npairs += 1
         fa, fb = prog.fn(a), prog.fn(b)
         ca = Counter(sig(g) for g in guards.guard_sites(fa))
         cb = Counter(sig(g) for g in guards.guard_sites(fb))
@@ -80,6 +84,9 @@ def variant_agreement(prog, res):
                       sum(diff.values()), [(k[0], sorted(k[1]), sorted(k[2]), sorted(k[3])) for k in list(diff)[:2]]))
     # fast-loop wrappers
     for a, b in (("HUF_decompress4X1_usingDTable_internal_fast", "HUF_decompress4X2_usingDTable_internal_fast"),):
+        if prog.has_fn(a) != prog.has_fn(b):
+            continue
+        npairs += 1
         fa, fb = prog.fn(a), prog.fn(b)
         ca = Counter((g.op, frozenset(g.codes)) for g in guards.guard_sites(fa))
         cb = Counter((g.op, frozenset(g.codes)) for g in guards.guard_sites(fb))
@@ -107,7 +114,7 @@ def variant_agreement(prog, res):
     want = {"bitstream-init-checked", "bitstream-fully-consumed", "last-literals-bounded", "sequence-error-forwarded", "repcodes-saved"}
     for name, ft in feats.items():
         res.check(want <= ft, R, name, prog.fn(name).loc, "has all 5 accept/reject features", "missing %s" % sorted(want - ft))
-    res.need(R, 6)
+    res.need(R, 3 + npairs)
 
 
 def dispatch_wrappers(prog, res):
@@ -247,7 +254,11 @@ def x2_fast_loop_bound(prog, res):
     number of unchecked iterations must therefore be bounded by the room left in EVERY output segment (a min over a stream
     index), and by the input left; the single-symbol loop advances all streams in lock step and may bound by one segment."""
     R = "T8.fast-loop-iteration-bound"
+    nloops = 0
     for name, every in (("HUF_decompress4X2_usingDTable_internal_fast_c_loop", True), ("HUF_decompress4X1_usingDTable_internal_fast_c_loop", False)):
+        if not prog.has_fn(name) and prog.has_fn("HUF_decompress4X%s_usingDTable_internal_fast_c_loop" % ("1" if every else "2")):
+            continue        # forced-variant build
+        nloops += 1
         f = prog.fn(name)
         # divisions (oend[..] - op[..]) / K
         per_stream, fixed = [], []
@@ -273,7 +284,43 @@ def x2_fast_loop_bound(prog, res):
                       "the X2 fast loop bounds its unchecked iterations by one output segment only: a faster stream overruns its segment and a valid frame is rejected as corrupted")
         else:
             res.check(bool(fixed) or bool(per_stream), R, name + ":output-segment", f.loc, "iterations bounded by the output left", "output-side iteration bound vanished")
-    res.need(R, 4)
+    res.need(R, 2 * nloops)
+
+
+BULK = ("memcpy", "memset", "memmove", "__builtin_memcpy", "__builtin_memset", "__builtin_memmove")
+
+
+def format_exact_huffman_entry(prog, res):
+    """T10: the literals section of the zstd format has exactly the four encodings the block decoder dispatches on; a
+    Huffman-coded section is ALWAYS a tree description followed by a bitstream, whatever its size.  The stand-alone Huffman
+    container entry points (HUF_decompress1X_DCtx_wksp, HUF_decompress4X_DCtx, HUF_decompress...) add shortcuts of their own
+    (cSrcSize == dstSize is stored data, cSrcSize == 1 is RLE, cSrcSize > dstSize is corruption).  No Huffman entry point
+    called by ZSTD_decodeLiteralsBlock — in any build configuration — may write its destination parameter by a bulk
+    copy/fill, nor compare its two size parameters with each other."""
+    R = "T10.format-exact-huffman-entry"
+    f = prog.fn("ZSTD_decodeLiteralsBlock")
+    ents = sorted({c.get("c") for b, i, c in f.calls() if (c.get("c") or "").startswith("HUF_decompress")})
+    res.check(len(ents) >= 4, R, "entry-points", f.loc, "Huffman entry points used by the block decoder: %s" % ents, "Huffman entry points found: %s" % ents)
+    for nm in ents:
+        if not prog.has_fn(nm):
+            continue
+        g = prog.fn(nm)
+        bad = []
+        for b, i, c in g.calls(BULK):
+            d = strip_casts(g.resolve_x(c["a"][0])) if c.get("a") else None
+            if d is not None and d.get("k") == "ref" and d.get("rk") == "p":
+                bad.append("line %s: bulk %s into its destination parameter" % (c.get("l"), c.get("c").replace("__builtin_", "")))
+        for bid, cond, t, fl in g.branches():
+            c = strip_casts(g.resolve_x(cond))
+            if c is not None and c.get("k") == "bin" and c.get("op") in ("==", "!=", ">", "<", ">=", "<="):
+                l, r = strip_casts(g.resolve_x(c["lhs"])), strip_casts(g.resolve_x(c["rhs"]))
+                if l is not None and r is not None and l.get("k") == r.get("k") == "ref" and l.get("rk") == r.get("rk") == "p" \
+                        and "size_t" in (l.get("t") or "") and "size_t" in (r.get("t") or ""):
+                    bad.append("line %s: compares its size parameters %s and %s" % (c.get("l"), l.get("n"), r.get("n")))
+        res.check(not bad, R, nm, g.loc, "decodes a tree description and a bitstream only (no stored/RLE container shortcut)",
+                  "%s, called by ZSTD_decodeLiteralsBlock, is a stand-alone Huffman container entry point (%s): valid zstd frames whose Huffman "
+                  "literals section is not smaller than its content are rejected or decoded to wrong bytes" % (nm, "; ".join(bad[:3])))
+    res.need(R, 5)
 
 
 def run(tier):
@@ -288,6 +335,7 @@ def run(tier):
     one_sequence_decoder(prog, res)
     output_limit_selection(prog, res)
     x2_fast_loop_bound(prog, res)
+    format_exact_huffman_entry(prog, res)
     return res.finish(
         explanation="The 160 cells of LL/OF/ML_defaultDTable are compared with the table obtained by running the "
                     "format document's construction algorithm (re-implemented in the checker from "
